@@ -75,3 +75,11 @@ Theorem prox_opt_mcp : forall x s alpha gamma weight p,
   forall v, pobj (mcp1 alpha gamma) (weight * s) x p <= pobj (mcp1 alpha gamma) (weight * s) x v.
 Proof. exact prox_MCP_opt. Qed.
 Print Assumptions prox_opt_mcp.
+
+(* block soft-thresholding (prox of the group / row penalties) never fails for a threshold u >= 0 -- no division by a zero
+   norm, the zero vector with a zero threshold (unpenalised group at a zero point) included -- and keeps the shape *)
+Require Import SK.Lemmas.Reductions.
+Theorem block_soft_thresholding_total : forall (x : list R) u, 0 <= u ->
+  exists r, @BST__positive_False R _ x u = Ok r /\ length r = length x.
+Proof. exact BST_plain_total. Qed.
+Print Assumptions block_soft_thresholding_total.
